@@ -273,6 +273,32 @@ def interpolate (st : St) (c : Nat) (command : Str) : Except Err (St × Str) :=
 
 /-! ## the DSL statements the check generates -/
 
+/-- `PythonResult.as_json / as_str / as_repr` -/
+inductive Conv where
+  | json | str | repr
+  deriving DecidableEq, Repr
+
+/-- the stem suffix of the converted file: `self._value + '-json'` / `'-str'` / `'-repr'` -/
+def Conv.stem : Conv → Str
+  | .json => ['-', 'j', 's', 'o', 'n']
+  | .str => ['-', 's', 't', 'r']
+  | .repr => ['-', 'r', 'e', 'p', 'r']
+
+/-- `jrf.add_extension('.json')` / `'.txt'` / `'.txt'` -/
+def Conv.ext : Conv → Str
+  | .json => ['.', 'j', 's', 'o', 'n']
+  | .str => ['.', 't', 'x', 't']
+  | .repr => ['.', 't', 'x', 't']
+
+/-- `f'result{self.n_results}'` of the `k`-th call (k = 0, 1, …) -/
+def resultName (k : Nat) : Str := ['r', 'e', 's', 'u', 'l', 't'] ++ Nat.toDigits 10 (k + 1)
+
+/-- the key under which the converted file is registered in the job's `_resources` -/
+def convKey (k : Nat) (c : Conv) : Str := resultName k ++ c.stem
+
+/-- the `_value` of the converted file: stem **and** conversion-specific extension -/
+def convValue (k : Nat) (c : Conv) : Str := convKey k c ++ c.ext
+
 /-- how a command names a resource -/
 inductive Ref where
   /-- handle `h k` (result of read_input / read_input_group) -/
@@ -283,6 +309,8 @@ inductive Ref where
   | jobAttr (j : Nat) (name : Str)
   /-- `j.name.ident` -/
   | jobMember (j : Nat) (name ident : Str)
+  /-- `result.as_json()` / `.as_str()` / `.as_repr()` where `result` is what the `k`-th `call` of python job `j` returned -/
+  | conv (j k : Nat) (c : Conv)
   deriving DecidableEq, Repr
 
 inductive Piece where
@@ -379,6 +407,18 @@ def resolve (st : St) : Ref → Except Err (St × Rid)
         | some n => .ok (st1, .file n)
         | none => .error .batchException
       | _ => .error .notDsl
+    else .error .notDsl
+  | .conv j k c =>
+    -- `if self._json is None: jrf = self._add_converted_resource(self._value + '-json'); jrf.add_extension('.json'); self._json = jrf`
+    if j < st.nJobs ∧ (st.job j).python ∧ k < (st.job j).calls.length then
+      match (st.job j).resources.lookup (convKey k c) with
+      | some r => .ok (st, r)
+      | none =>
+        let n := st.rfCount
+        let st1 : St := { st with files := st.files ++ [(n, FileRes.jobFile j (convValue k c) none true)], rfCount := n + 1 }
+        .ok (st1.updJob j fun js =>
+          { js with resources := js.resources ++ [(convKey k c, Rid.file n)], valid := insertNew js.valid (Rid.file n),
+                    mentioned := insertNew js.mentioned (Rid.file n) }, Rid.file n)
     else .error .notDsl
 
 /-- `str(resource)` -/
